@@ -690,7 +690,32 @@ def run_all(exe, cases, name, max_crashes=12):
 # ----------------------------------------------------------------------------------------------------------
 # walking one factorization case: specification state, reference inverse, queries
 # ----------------------------------------------------------------------------------------------------------
+def usetup_after(flag, op):
+    """LUModel.v, theorem C10_usetup_flag: the prepared-update flag after an operation"""
+    if op[0] == "PREP":
+        return True
+    if op[0] in ("LOAD", "CHG"):
+        return False
+    return flag
+
+
 def walk_case(ck, cid, c, obs, Q, pending):
+    # the protocol flag printed after every operation ("US 0/1") against the model
+    flags = [l.split()[1] == "1" for l in obs if l.startswith("US ")]
+    obs = [l for l in obs if not l.startswith("US ")]
+    if flags and c.get("kind") in ("D", "R"):
+        f = False
+        for oi_, op_ in enumerate(c["ops"]):
+            if oi_ >= len(flags):
+                break
+            f = usetup_after(f, op_)
+            ck.count("protocol-flag:%s" % ("set" if f else "clear"))
+            if flags[oi_] != f:
+                pending.append((None, "protocol-flag:%s:%s" % (c["kind"], op_[0]),
+                                "after operation %d (%s) SLUFactor::usetup is %d, the protocol model (LUModel.v, C10_usetup_flag) says %d: a prepared update "
+                                "vector would be used for a matrix it was not prepared for (C10_prepared_update_is_for_current_matrix)" % (
+                                    oi_, op_[0], flags[oi_], f), dict(case=c, case_id=cid, correspondence="LUModel.usetup vs SLUFactor::usetup")))
+                break
     """Compare the observations of one case with the specification; emit checker queries.
     pending: list of (tag or None, signature, what, replay-extra) decided after the checker ran; a tag of None with
     verdict given directly is a violation found without the checker (status, crash, index set)."""
